@@ -55,6 +55,17 @@ def scenarios(tier):
                   [('send', GET % 1), ('wait_recv', len(OK))] +
                   sum([[('sleep', T - 2 * TICK), ('send', GET % (i + 2)), ('wait_recv', (i + 2) * len(OK))] for i in range(3)], []) +
                   [('wait_eof',)], {'resumes': True})
+                # the FIRST request itself arrives slowly: head (and upload body) in pieces, each gap inside the window,
+                # the whole taking several timeouts -- traffic is traffic, also before the first request is complete
+                g = GET % 7
+                cut = [g[:9], g[9:24], g[24:len(g) - 2], g[len(g) - 2:]]
+                S('slow-first-request-head',
+                  sum([[('send', pc), ('sleep', T - 2 * TICK)] for pc in cut[:-1]], []) + [('send', cut[-1]), ('wait_recv', len(OK)), ('wait_eof',)],
+                  {'resumes': True})
+                post = b'POST http://h.test/u HTTP/1.1\r\nHost: h.test\r\nContent-Length: 9\r\n\r\n'
+                S('slow-first-request-body',
+                  [('send', post + b'abc'), ('sleep', T - 2 * TICK), ('send', b'def'), ('sleep', T - 2 * TICK), ('send', b'ghi'),
+                   ('wait_recv', len(OK)), ('wait_eof',)], {'resumes': True})
                 # tunnel: upstream keeps talking to the client (writes to the client are client-side traffic)
                 S('tunnel-idle', [('send', CONNECT), ('wait_recv', len(ACK) + 5), ('wait_eof',)])
                 S('tunnel-client-resumes', [('send', CONNECT), ('wait_recv', len(ACK) + 5), ('sleep', T - TICK),
